@@ -175,6 +175,14 @@ def r4(ctx):
     f, loop = _count_loop(ctx)
     calls = [c for c in walk_no_nested(loop) if isinstance(c, ast.Call) and dotted(c.func) == 'read_counts']
     kw = {k.arg: src(k.value) for k in calls[0].keywords} if calls else {}
+    # `read_counts(read, **settings)` with settings a dict literal built once per job
+    for k_ in (calls[0].keywords if calls else []):
+        if k_.arg is None and isinstance(k_.value, (ast.Name, ast.Dict)):
+            dd = [k_.value] if isinstance(k_.value, ast.Dict) else \
+                [s_.value for s_ in walk_no_nested(f) if isinstance(s_, ast.Assign) and len(s_.targets) == 1 and src(s_.targets[0]) == k_.value.id and isinstance(s_.value, ast.Dict)]
+            if len(dd) == 1:
+                kw.pop(None, None)
+                kw.update({kk.value: src(vv) for kk, vv in zip(dd[0].keys, dd[0].values) if isinstance(kk, ast.Constant)})
     ok = len(calls) == 1 and kw.get('read1_only') == 'True' and kw.get('min_mq') == 'min_mq' and kw.get('dedup') == 'dedup' and src(calls[0].args[0]) == (loop.target.elts[1].id if isinstance(loop.target, ast.Tuple) else loop.target.id)
     ctx.emit('C12-R4', ok, BINCOUNTS, calls[0] if calls else loop, f'counter filters with read_counts({", ".join(f"{k}={v}" for k, v in kw.items())})', key='filter-call')
     mod = ctx.ix.module(BINCOUNTS)
